@@ -10,6 +10,11 @@ Three streams, all against the real Pandora code (harness/impl/criteria_pipeline
      model of the flag arithmetic (Model/FlagSteps.lean) and checked against the specification.
   C. kernels: the two interpolations, the cross-checking and the refinement loop called directly on
      crafted flag arrays (every documented bit combination, also the unreachable ones).
+  W. wide intervals: `criteria.validity_mask` (then `mask_invalid_variable_disparity_range`, `mask_border`) called
+     directly on narrow cost-volume datasets whose global interval holds 255 / 256 / 257 / 300 / 513 integer
+     disparities (all three sign cases, a fully masked and a fully nodata line in the right mask): the widths at which
+     a narrow per-pixel counter would wrap (seed C04-6).  The full matching cost refuses disparities beyond the image
+     width, so the cost volume here is synthetic: NaN exactly where the model says the cost is not computable.
 """
 from __future__ import annotations
 
@@ -30,7 +35,9 @@ BITS_PRE = (1, 2, 4, 64, 128)
 def translate():
     from translator import registry
 
-    return registry.generate("Constants", "FlagOps")
+    # Constants, FlagOps; and the decisions of criteria.py regenerated expression by expression
+    # (translator/gen_kernels_criteria.py -> Generated/KernelsCriteria.lean, Properties/C04Kernels.lean)
+    return registry.generate("Constants", "FlagOps", "KernelsCriteria")
 
 
 # --------------------------------------------------------------------------------------------
@@ -94,6 +101,164 @@ def translator_cross_check(report, status):
     except Exception as exc:  # pylint: disable=broad-except
         status.problem("translator", f"cannot read the live flag sites: {type(exc).__name__}: {exc}")
     return ops_of_sites(data["sites"])
+
+
+# --------------------------------------------------------------------------------------------
+# the regenerated decisions of criteria.py (translator/gen_kernels_criteria.py): the translator's reading against
+# the REAL functions, cell by cell
+# --------------------------------------------------------------------------------------------
+def crit_geometries(rng, count):
+    """(rows, cols, col0, off, dmin, dmax, subpix, left mask style, right mask style): the three sign cases, an end at 0,
+    single disparities, offsets 0-2, ROI coordinates not starting at 0, images narrower than the interval and than the
+    window, intervals entirely beyond the image"""
+    out = []
+    for off in (0, 1, 2):
+        for col0 in (0, 3, 10):
+            for cols in (1, 2, 3, 5, 8):
+                for a, b in ((-3, -1), (-1, -1), (-9, -7), (1, 3), (2, 2), (7, 9), (-2, 2), (0, 0), (-2, 0), (0, 3), (-6, 6),
+                             (-4, -1), (1, 5)):
+                    out.append((rng.randrange(1, 4), cols, col0, off, a, b, rng.choice([1, 1, 2, 4])))
+    rng.shuffle(out)
+    out = out[: max(count, 300)]
+    while len(out) < count:
+        cols = rng.randrange(1, 11)
+        a = rng.randrange(-cols - 3, cols + 3)
+        out.append((rng.randrange(1, 5), cols, rng.choice([0, 2, 5, 117]), rng.randrange(0, 3), a, a + rng.randrange(0, 6),
+                    rng.choice([1, 2, 4])))
+    return out
+
+
+def kernels_cross_check(ctx, report, status):
+    """every run: (1) the generator's self-test (refused constructs, accepted expressions against numpy's own reading,
+    the slice reading against Python's slicing); (2) `pyexpr.evaluate` on the regenerated kernels against the REAL
+    `validity_mask` (with and without masks: validityMaskCol, allocLeftPx, rightMaskedPred + the fold of rightIterPx over
+    range(d_min, d_max + 1), reading the right cells at the gathered column), `mask_invalid_variable_disparity_range`
+    and `mask_border`, cell by cell"""
+    from fractions import Fraction  # noqa: F401
+
+    from translator import gen_kernels_criteria as gk
+    from translator import pyexpr
+    from translator.common import Unsupported
+
+    from ..impl import criteria_pipeline as cp
+
+    try:
+        for what in gk.selftest_problems():
+            status.problem("translator", f"gen_kernels_criteria self-test: {what}")
+        report.translator_checks += 1
+        ks, errors = gk.kernels()
+    except Unsupported:
+        return
+    except Exception as exc:  # pylint: disable=broad-except
+        status.problem("translator", f"gen_kernels_criteria crashed: {type(exc).__name__}: {exc}")
+        return
+    if errors:
+        return  # already reported by build_and_audit (the kernel is not translated)
+    from pandora import criteria
+
+    def ev(name, *args):
+        res, vals = pyexpr.evaluate(ks[name], *args)
+        if res != "ok":
+            raise RuntimeError(f"{name}{args}: {res}")
+        return vals
+
+    rng = ctx.rng
+    n_cells = 0
+    problems = 0
+
+    def problem(msg):
+        nonlocal problems
+        problems += 1
+        if problems <= 5:
+            status.problem("translator", msg)
+
+    geos = crit_geometries(rng, ctx.n(320, 1500))
+    signs = set()
+    for gi, (rows, cols, col0, off, a, b, subpix) in enumerate(geos):
+        signs.add("neg" if b < 0 else "pos" if a > 0 else "straddle")
+        masked = gi % 2 == 1
+        vv, nd, inv = rng.choice([[0, 1, [2]], [0, 1, [2, 3, 255]], [5, 7, [0, 1, 9]]])
+        ml = gen_mask(rng, rows, cols, rng.choice(["none", "sparse", "dense", "columns", "border"])) if masked else None
+        mr = gen_mask(rng, rows, cols, rng.choice(["sparse", "dense", "columns", "border", "all_invalid"])) if masked else None
+        im = np.zeros((rows, cols), dtype=np.float32)
+        left = cp.make_image(im, ml, col0=col0, valid_value=vv, nodata_value=nd, invalid_values=tuple(inv))
+        right = cp.make_image(im, mr, col0=col0, valid_value=vv, nodata_value=nd, invalid_values=tuple(inv))
+        cv = crit_cv(rows, cols, col0, off, a, b, subpix)
+        geo = {"rows": rows, "cols": cols, "col0": col0, "offset": off, "interval": [a, b], "subpix": subpix, "masks": masked}
+        try:
+            real = np.array(criteria.validity_mask(left, right, cv)["validity_mask"].data)
+        except Exception as exc:  # pylint: disable=broad-except
+            real = f"{type(exc).__name__}"
+        try:
+            want = np.zeros((rows, cols), dtype=np.int64)
+            dil_l = criteria.binary_dilation_msk(left, 2 * off + 1) if ml is not None else None
+            dil_r = criteria.binary_dilation_msk(right, 2 * off + 1) if mr is not None else None
+            for c in range(cols):
+                flag0, bit1 = ev("validityMaskCol", col0 + c, col0, col0 + cols - 1, a, b, off)
+                for r in range(rows):
+                    f = flag0
+                    if ml is not None:
+                        f = ev("allocLeftPx", f, bool(dil_l[r, c]), int(left["msk"].data[r, c]), nd, vv)[0]
+                    if mr is not None:
+                        b27, ndr = 0, 0
+                        for dsp in range(a, b + 1):
+                            g = ev("rightIterPx", c, 0, cols - 1, dsp, off, a, b, bit1, 0, False, b27, ndr, f)[3]
+                            inside = -cols <= g < cols  # numpy's own index rule (a negative index wraps)
+                            rm = int(ev("rightMaskedPred", int(right["msk"].data[r, g]), nd, vv)[0]) if inside else 0
+                            dl = bool(dil_r[r, g]) if inside else False
+                            if ev("validIndex", c, 0, cols - 1, dsp, off)[0] and not inside:
+                                raise IndexError("the translated valid_index reads outside the image")
+                            b27, ndr, f, _ = ev("rightIterPx", c, 0, cols - 1, dsp, off, a, b, bit1, rm, dl, b27, ndr, f)
+                    want[r, c] = f
+                    n_cells += 1
+        except Exception as exc:  # pylint: disable=broad-except
+            want = f"{type(exc).__name__}"
+        if isinstance(real, str) or isinstance(want, str):
+            if not (isinstance(real, str) and isinstance(want, str)):
+                problem(f"validity_mask: real function -> {real if isinstance(real, str) else 'a mask'}, translated kernels -> "
+                        f"{want if isinstance(want, str) else 'a mask'} on {geo}")
+            continue
+        if real.shape != want.shape or (real != want).any():
+            d = first_diff(real, want)
+            problem(f"translated criteria kernels evaluate differently from the real validity_mask on {geo}: {d}")
+    report.count("kernels_geometries", len(geos))
+    for sgn in signs:
+        report.count("kernels_sign_" + sgn)
+    if len(signs) < 3:
+        status.problem("translator", "kernels cross-check: a sign case of the interval was not generated")
+    # mask_invalid_variable_disparity_range and mask_border
+    for k in range(ctx.n(40, 200)):
+        rows, cols = rng.randrange(1, 8), rng.randrange(1, 8)
+        off = rng.choice([0, 1, 1, 2, 3])
+        flags = np.array([[rng.choice([0, 2, 4, 6, 64, 66, 70, 128, 130, 134, 192, 255, 1, 3]) for _ in range(cols)] for _ in range(rows)],
+                         dtype=np.int64)
+        cv = crit_cv(rows, cols, 0, off, -1, 1, 1)
+        data = np.zeros((rows, cols, 3), dtype=np.float32)
+        allnan = np.array([[rng.random() < 0.4 for _ in range(cols)] for _ in range(rows)])
+        data[allnan] = np.nan
+        part = np.array([[rng.random() < 0.3 for _ in range(cols)] for _ in range(rows)]) & ~allnan
+        data[part, 0] = np.nan
+        cv["cost_volume"].data[:] = data
+        import xarray as xr
+
+        cv["validity_mask"] = xr.DataArray(flags.copy(), dims=["row", "col"])
+        criteria.mask_invalid_variable_disparity_range(cv)
+        got = np.array(cv["validity_mask"].data)
+        want = np.array([[ev("maskInvalidPx", int(flags[r, c]))[0] if allnan[r, c] else int(flags[r, c]) for c in range(cols)]
+                         for r in range(rows)]).reshape(rows, cols)
+        if (got != want).any():
+            problem(f"translated mask_invalid_variable_disparity_range differs from the real function: {first_diff(got, want)} "
+                    f"flags={flags.tolist()} all_nan={allnan.tolist()}")
+        cv["validity_mask"] = xr.DataArray(flags.copy(), dims=["row", "col"])
+        got = np.array(criteria.mask_border(cv).data)
+        want = np.array([[ev("maskBorderPx", r, c, rows, cols, off, int(flags[r, c]))[0] for c in range(cols)] for r in range(rows)]
+                        ).reshape(rows, cols)
+        if (got != want).any():
+            problem(f"translated mask_border differs from the real function: {first_diff(got, want)} rows={rows} cols={cols} "
+                    f"offset={off}")
+        n_cells += 2 * rows * cols
+    report.translator_checks += 2
+    report.count("kernels_cells_compared", n_cells)
 
 
 # --------------------------------------------------------------------------------------------
@@ -580,6 +745,112 @@ def run_pipeline_case(ctx, report, ops, case, label):
     return out
 
 
+# ---- stream W: wide global intervals on narrow images, criteria.py called directly --------------
+WIDE_COUNTS = (255, 256, 257, 300, 513)
+
+
+def gen_wide_case(rng, i):
+    """interval of WIDE_COUNTS[i % 5] integer disparities, sign case (i // 5) % 3; narrow image (most candidates fall
+    outside the right image); the right mask has a fully invalid line and (3 rows and more) a fully nodata line"""
+    n = WIDE_COUNTS[i % len(WIDE_COUNTS)]
+    sign = ("neg", "pos", "straddle")[(i // len(WIDE_COUNTS)) % 3]
+    win = rng.choice([1, 3, 3])
+    rows = rng.randrange(max(2, win), max(2, win) + 3)
+    cols = rng.randrange(win + 3, win + 8)
+    if sign == "neg":
+        b = -rng.randrange(1, 3)
+        a = b - (n - 1)
+    elif sign == "pos":
+        a = rng.randrange(1, 3)
+        b = a + (n - 1)
+    else:
+        a = -rng.choice([0, 1, 2, n // 2, n - 3, n - 2, n - 1])
+        b = a + (n - 1)
+    mr = gen_mask(rng, rows, cols, rng.choice(["none", "sparse", "sparse"])) or [[0] * cols for _ in range(rows)]
+    full = rng.sample(range(rows), min(rows, 2))
+    mr[full[0]] = [2] * cols
+    if rows >= 3:
+        mr[full[1]] = [1] * cols
+    return {
+        "kind": "wide", "rows": rows, "cols": cols, "window": win, "dmin": a, "dmax": b, "subpix": 1,
+        "mask_left": gen_mask(rng, rows, cols, rng.choice(["none", "none", "sparse", "border"])), "mask_right": mr,
+        "grids": None, "col0": rng.choice([0, 0, 3, 40]), "codes": rng.choice([[0, 1, [2]], [0, 1, [2, 3, 255]], [5, 7, [0, 1, 9]]]),
+    }
+
+
+def crit_cv(rows, cols, col0, off, dmin, dmax, subpix):
+    """a cost-volume dataset as `allocate_cost_volume` lays it out (coordinates, attributes), all costs 0"""
+    import xarray as xr
+
+    disp = np.arange(dmin * subpix, dmax * subpix + 1, dtype=np.float64) / subpix
+    cv = xr.Dataset({"cost_volume": (["row", "col", "disp"], np.zeros((rows, cols, len(disp)), dtype=np.float32))},
+                    coords={"row": np.arange(rows), "col": np.arange(col0, col0 + cols), "disp": disp})
+    cv.attrs = {"offset_row_col": off, "window_size": 2 * off + 1, "subpixel": subpix}
+    return cv
+
+
+def run_wide_case(ctx, report, case, label):
+    from pandora import criteria
+
+    from ..impl import criteria_pipeline as cp
+
+    rows, cols, off = case["rows"], case["cols"], (case["window"] - 1) // 2
+    a, b = case["dmin"], case["dmax"]
+    vv, nd, inv = case["codes"]
+    im = np.zeros((rows, cols), dtype=np.float32)
+    left = cp.make_image(im, case["mask_left"], col0=case["col0"], valid_value=vv, nodata_value=nd, invalid_values=tuple(inv))
+    right = cp.make_image(im, case["mask_right"], col0=case["col0"], valid_value=vv, nodata_value=nd, invalid_values=tuple(inv))
+    cv = crit_cv(rows, cols, case["col0"], off, a, b, case["subpix"])
+    payload = {
+        "rows": rows, "cols": cols, "off": off, "col0": case["col0"], "dmin": a, "dmax": b, "subpix": case["subpix"],
+        "mask_left": case["mask_left"], "mask_right": case["mask_right"],
+        "pix_min": [[a] * cols for _ in range(rows)], "pix_max": [[b] * cols for _ in range(rows)],
+    }
+    rc = {"case": case, "side": "left"}
+    key = json.dumps(case, sort_keys=True)
+    try:
+        stage1 = np.array(criteria.validity_mask(left, right, cv)["validity_mask"].data, copy=True)
+    except Exception as exc:  # pylint: disable=broad-except
+        report.count("error:" + type(exc).__name__)
+        report.case(key=None, nontrivial=False)
+        if len(report.notes) < 10:
+            report.notes.append(f"{label}: validity_mask raised {type(exc).__name__}: {exc}"[:200])
+        return None
+    model = ctx.lean.call("C04.criteria", **payload)
+    d = first_diff(stage1, np.array(model["stage1"]).reshape(stage1.shape))
+    if d:
+        report.disagree("validity_mask(stage1), wide interval", rc, d, None)
+    # the rest of what cv_masked does to the mask, on a cost volume that is NaN exactly where the model says so
+    nan = np.array(model["nan"], dtype=bool).reshape(rows, cols, -1)
+    cv["cost_volume"].data[nan] = np.nan
+    criteria.mask_invalid_variable_disparity_range(cv)
+    if off > 0:
+        criteria.mask_border(cv)
+    final = np.array(cv["validity_mask"].data, copy=True)
+    d = first_diff(final, np.array(model["final"]).reshape(final.shape))
+    if d:
+        report.disagree("validity_mask(after mask_invalid_variable_disparity_range, mask_border), wide interval", rc, d, None)
+    nan_all = nan.all(axis=2)
+    fails = ctx.lean.call("C04.spec_pre", mask=grid(final), nan_all=[[bool(v) for v in row] for row in nan_all], disp=None,
+                          invalid_disp="nan", **payload)
+    sign = "neg" if b < 0 else ("pos" if a > 0 else "straddle")
+    for cl, r, c, f in fails:
+        fail_limited(report, cl, f"wide_interval_{sign}", rc, {"pixel": [r, c], "flag": f, "n_disparities": b - a + 1},
+                     f"clause {cl} false at pixel ({r},{c}) flag={f} with {b - a + 1} disparities in the global interval")
+    interior = final[off: rows - off, off: cols - off] if off else final
+    for bit, name in ((1, "bit0_cause"), (2, "bit1_cause"), (4, "bit2_cause"), (64, "bit6_cause"), (128, "bit7_cause")):
+        n = int(((interior & bit) != 0).sum())
+        if n:
+            report.hit(name, n)
+    report.case(key=key, nontrivial=True, sample={"rows": rows, "cols": cols, "window": case["window"], "interval": [a, b],
+                                                  "final_mask": grid(final)})
+    report.count(f"wide_{b - a + 1}_disparities")
+    report.count("wide_interval_" + sign)
+    if int(((interior & 128) != 0).sum()):
+        report.count("wide_bit7_raised")
+    return final
+
+
 # ---- stream C -------------------------------------------------------------------------------
 def gen_flag_grid(rng, rows, cols, reachable, kernel=""):
     """`reachable`: flags a pipeline without a repeated bit-raising step can present to the kernel (bit 3 clear before
@@ -666,6 +937,8 @@ def run_case(ctx, report, ops, case, label):
         return run_pipeline_case(ctx, report, ops, case, label)
     if case["kind"] == "kernel":
         return run_kernel_case(ctx, report, ops, case, label)
+    if case["kind"] == "wide":
+        return run_wide_case(ctx, report, case, label)
     if case["kind"] == "lean_run":  # counterexample of Properties/C04.lean replayed on the model (documentation)
         return ctx.lean.call("C04.run", **case["payload"])
     raise ValueError(case["kind"])
@@ -673,14 +946,18 @@ def run_case(ctx, report, ops, case, label):
 
 def run(ctx, report, status):
     ops = translator_cross_check(report, status)
+    kernels_cross_check(ctx, report, status)
     report.rule = (
         "A: random image pairs (1-11 x 2-14, windows 1/3/5, subpix 1/2/4, sad/ssd/census/zncc, intervals negative/positive/"
         "straddling/single/wider than the image/ending at 0, scalar or per-pixel grids, nodata+invalid masks sparse/dense/"
         "full columns/border blobs/all-masked, non-zero first column coordinate) through the real matching_cost and disparity "
         "steps; B: the same scenes followed by 1-5 random post-disparity steps with planted repeats, every mask transition "
         "observed (cross-checking and interpolation separately); C: the interpolation / cross-checking / refinement kernels "
-        "called directly on crafted flag grids. Non-trivial = a mask is present or the interval does not contain 0 (A), "
-        "always (B, C); distinct by the full input."
+        "called directly on crafted flag grids; W: criteria.validity_mask + mask_invalid_variable_disparity_range + mask_border "
+        "called directly on narrow datasets (4-10 columns) whose global interval holds 255/256/257/300/513 integer disparities, "
+        "negative/positive/straddling, right mask with a fully invalid and a fully nodata line, cost volume NaN where the model "
+        "says not computable. Non-trivial = a mask is present or the interval does not contain 0 (A), "
+        "always (B, C, W); distinct by the full input."
     )
     rng = ctx.rng
     for name, case in core.load_corpus(PROP):
@@ -691,6 +968,8 @@ def run(ctx, report, status):
         run_case(ctx, report, ops, gen_pipeline_case(rng), f"B{i}")
     for i in range(ctx.n(150, 3000)):
         run_case(ctx, report, ops, gen_kernel_case(rng), f"C{i}")
+    for i in range(ctx.n(15, 150)):
+        run_case(ctx, report, ops, gen_wide_case(rng, i), f"W{i}")
     if ctx.thorough:
         for case in thorough_strips(rng):
             run_case(ctx, report, ops, case, "strip")
@@ -765,14 +1044,20 @@ def search(ctx, report, status):
             f = unknown(sub)
             if f:
                 return f
-    for case in directed_cases():  # 2. the small-scope enumeration
+    for i in range(30):  # 2. wide intervals (cheap: criteria.py alone), every width x sign case twice
+        run_case(ctx, sub, ops, gen_wide_case(ctx.rng, i), "search:wide")
+        f = unknown(sub)
+        if f:
+            return f
+        del sub.failures[:]
+    for case in directed_cases():  # 3. the small-scope enumeration
         run_case(ctx, sub, ops, case, "search:directed")
         f = unknown(sub)
         if f:
             return f
         del sub.failures[:]
     rng = ctx.rng
-    for i in range(400):  # 3. the random stream
+    for i in range(400):  # 4. the random stream
         case = [gen_criteria_case, gen_pipeline_case, gen_kernel_case][i % 3](rng)
         run_case(ctx, sub, ops, case, "search:random")
         f = unknown(sub)
@@ -786,7 +1071,7 @@ def replay(ctx, report, path):
     with open(path, encoding="utf-8") as f:
         data = json.load(f)
     case = data.get("input", data)
-    kinds = ("criteria", "pipeline", "kernel", "lean_run")
+    kinds = ("criteria", "pipeline", "kernel", "lean_run", "wide")
     while isinstance(case, dict) and case.get("kind") not in kinds and ("case" in case or "kernel_case" in case):
         case = case.get("case") or case.get("kernel_case")
     if not isinstance(case, dict) or case.get("kind") not in kinds:
